@@ -131,7 +131,7 @@ pub enum Bias {
 pub fn gen_op(cur: &mut Cursor, bias: Bias) -> Op {
     let sel = cur.u8();
     let k = cur.u8();
-    let via = cur.below(6) as u8;
+    let via = cur.below(7) as u8;
     match bias {
         Bias::Mixed => match sel {
             0..=79 => Op::PushLegal(k, via),
@@ -300,7 +300,7 @@ impl ChainSim {
         }
         let mut boards = vec![self.start_board.clone()];
         for (i, m) in self.moves.iter().enumerate() {
-            if mv_from_lib(&listed[i]) != Some(*m) || self.chain.get(i) != listed[i] {
+            if mv_from_lib(&listed[i]) != Some(*m) || self.chain.get(i) != listed[i] || unsafe { self.chain.get_unchecked(i) } != listed[i] {
                 return Err(Failure::new(format!("recorded move #{} is {} but the accepted move was {}", i, mv_desc(&listed[i]), m.uci())));
             }
             let nb = boards[i].make_move(listed[i]).map_err(|e| Failure::new(format!("replay: recorded move #{} refused: {}", i, e)))?;
@@ -330,7 +330,7 @@ impl ChainSim {
         let mv = f(mv_to_lib(&m))?;
         let legal = self.cur().legal();
         let before_len = self.chain.len();
-        let res: Result<(), String> = match via % 6 {
+        let res: Result<(), String> = match via % 7 {
             0 => self.chain.push(mv).map_err(|e| e.to_string()),
             1 => self.chain.push(Uci(m.uci())).map_err(|e| e.to_string()),
             2 => self.chain.push(San(self.cur().san(&m, &legal))).map_err(|e| e.to_string()),
@@ -342,10 +342,15 @@ impl ChainSim {
                     Err(e) => Err(format!("san::Move::from_str({:?}): {}", text, e)),
                 }
             }
-            _ => self.chain.push_uci_list(&m.uci()).map_err(|e| e.to_string()),
+            5 => self.chain.push_uci_list(&m.uci()).map_err(|e| e.to_string()),
+            _ => {
+                // the unchecked entry point, within its contract: the move is legal and no outcome is stored
+                unsafe { self.chain.push_unchecked(mv) };
+                Ok(())
+            }
         };
         if let Err(e) = res {
-            return Err(Failure::new(format!("push of the legal move {:?}/{} via route {} was refused: {}", m.kind, m.uci(), via % 6, e)));
+            return Err(Failure::new(format!("push of the legal move {:?}/{} via route {} was refused: {}", m.kind, m.uci(), via % 7, e)));
         }
         if self.chain.len() != before_len + 1 {
             return Err(Failure::new("accepted push did not add exactly one move".to_string()));
@@ -354,7 +359,7 @@ impl ChainSim {
         self.positions.push(np);
         self.moves.push(m);
         self.accepted += 1;
-        stats.label(["via_move", "via_uci_str", "via_san_str", "via_uci_value", "via_san_value", "via_uci_list"][(via % 6) as usize]);
+        stats.label(["via_move", "via_uci_str", "via_san_str", "via_uci_value", "via_san_value", "via_uci_list", "via_push_unchecked"][(via % 7) as usize]);
         let r = self.repetition_count();
         self.max_rep = self.max_rep.max(r);
         Ok(())
